@@ -17,7 +17,13 @@ func TestVerifC01Route(t *testing.T) {
 		srv := vfGenServer(rt, vfGenOpts{})
 		srv.CacheSize = 0
 		y := srv.YAML()
-		mapper := &vfMapper{live: vfLive}
+		// the set of existing backends changes during the case (a pipeline is deleted / created
+		// while the server keeps its rules): "a matched backend name that does not exist yields 503"
+		live := map[string]bool{}
+		for k, v := range vfLive {
+			live[k] = v
+		}
+		mapper := &vfMapper{live: live}
 		m, err := vfNewMux(y, mapper)
 		if err != nil {
 			// the generator builds only shapes validation accepts; a rejection is a generator bug
@@ -25,8 +31,13 @@ func TestVerifC01Route(t *testing.T) {
 		}
 		nreq := rapid.IntRange(4, 16).Draw(rt, "nreq")
 		for i := 0; i < nreq; i++ {
+			if rapid.IntRange(0, 4).Draw(rt, "flip-backend") == 0 {
+				b := rapid.SampledFrom([]string{"p0", "p1", "p2", "p3"}).Draw(rt, "which-backend")
+				live[b] = !live[b]
+				vf.Class("backend-set-changed")
+			}
 			req := vfGenReqFor(rt, srv, nil)
-			acc, ambiguous := vfAcceptable(srv, req, vfLive)
+			acc, ambiguous := vfAcceptable(srv, req, live)
 			got := vfServe(m, mapper, req)
 
 			// non-triviality (stated rule): >= 2 entries match host+path, or an entry ahead of the
